@@ -12,7 +12,8 @@ RULE = ("48 feature shapes that always contain a rule and tags on every level (f
         "one scenario de-selected} EVERY hook invocation of the fault-free run is taken as injection point (k-th hook call "
         "raises an Exception subclass / an AssertionError; once more with every hook and step reading the .status of the "
         "current feature/rule/scenario before it raises); a raising cleanup registered by the first scenario's hook, its "
-        "first step or the rule's hook, combined with every hook injection point; thorough adds all PAIRS of injection points. Oracle: run() "
+        "first step or the rule's hook, combined with every hook injection point; every feature/rule/scenario/tag hook invocation in turn calling skip() on its own "
+        "element (nothing raises: after-hooks stay paired, run() reports success); thorough adds all PAIRS of injection points. Oracle: run() "
         "returns, verdict failed, complete hook log equals the reference grammar (after-hooks paired), the element concerned "
         "is hook_error and a failed before-hook keeps its body from running, every element outside the concerned element's "
         "ancestry keeps the status/call log of the real fault-free run; no hooks for de-selected scenarios nor in dry-run. "
@@ -172,6 +173,43 @@ def cleanup_then_fault_cases(tier):
                 yield (prog, "default", {k: "exc"}, cl)
 
 
+def skip_case(case):
+    """a hook EXCLUDES its own element at run time (feature.skip() / rule.skip() / scenario.skip(), as documented):
+    nothing raises, so run() must return success; every before-hook that ran keeps its after-hook (strict nesting)"""
+    prog, cfgname, k = case
+    cfg = VARIATIONS[cfgname]
+    obs = harness.run_case(prog, cfg, faults={k: "skip"}, hooks=True)
+    v = []
+    name = obs["hooks"][k][0] if k < len(obs["hooks"]) else "?"
+    level = "scenario" if obs["hooks"][k][1] and isinstance(obs["hooks"][k][1], tuple) and len(obs["hooks"][k][1]) > 2 else "container"
+    if obs["escaped"]:
+        v.append(({"subcheck": "skip-by-hook", "clause": "exception-escapes-run", "hook": name, "exc": obs["escaped"]},
+                  "hook #%d (%s) skipped its element: run() raised %s: %s" % (k, name, obs["escaped"], obs.get("escaped_msg"))))
+    else:
+        nest = refrun._nesting_error(obs["hooks"])
+        if nest:
+            v.append(({"subcheck": "skip-by-hook", "clause": "after-hook-not-paired", "hook": name}, 
+                      "hook #%d (%s) skipped its element: %s" % (k, name, nest)))
+        if obs["verdict"]:
+            v.append(({"subcheck": "skip-by-hook", "clause": "false-red", "hook": name},
+                      "hook #%d (%s) skipped its element, nothing raised, but run() reports failure" % (k, name)))
+    return {"v": v, "nt": digest(case), "out": ("skip", name, obs["verdict"], len(obs["hooks"])),
+            "dg": (obs["verdict"], obs["escaped"], obs["hooks"], sorted(obs["status"].items()))}
+
+
+def skip_cases(tier):
+    quick = tier == "quick"
+    for si, shp in enumerate(shapes()):
+        if quick and si % 3:
+            continue
+        prog = (shp, SECOND)
+        base = refrun.predict(prog, VARIATIONS["default"], hooks=True).hooks
+        for k, (name, ref) in enumerate(base):
+            if name in ("before_all", "after_all") or "step" in name:
+                continue
+            yield (prog, "default", k)
+
+
 def pair_cases(tier):
     for si, shp in enumerate(shapes()):
         prog = (shp, SECOND)
@@ -191,6 +229,8 @@ def run(ctx):
               name="no hooks in dry-run / for de-selected scenarios")
     ctx.sweep(run_case, cleanup_then_fault_cases(ctx.tier), chunk=32,
               name="a raising cleanup of an earlier element, then a single hook fault at every invocation")
+    ctx.sweep(skip_case, skip_cases(ctx.tier), chunk=32,
+              name="a hook excludes its own element at run time (skip()) at every hook invocation")
     if not ctx.quick:
         ctx.sweep(run_case, pair_cases(ctx.tier), chunk=64, name="pairs of hook faults")
     sites = set()
